@@ -21,12 +21,20 @@ def stream(file=sys.stdout):
         file.write(ejson.dumps(obj, ensure_ascii=True)+'\n')
         file.flush()
 
+    failures = []
+
     def res_writer(res):
-        for r in res:
-            write(r)
-            yield r
+        try:
+            for r in res:
+                write(r)
+                yield r
+        except Exception as e:
+            # whatever a later step does with this error, the stream is not complete
+            failures.append(e)
+            raise
 
     def func(package):
+        failures.clear()
         write(package.pkg.descriptor)
         yield package.pkg
         for res in package:
@@ -34,6 +42,8 @@ def stream(file=sys.stdout):
             yield writer
             # rows a later step did not ask for are part of the stream all the same
             collections.deque(writer, maxlen=0)
+            if failures:
+                raise failures[0]
             file.write('\n')
         file.close()
         if filename:
